@@ -55,8 +55,10 @@ pub fn dash_path(path: &Path, dash_array: &[f32], mut dash_offset: f32) -> Path 
         index: 0,
     };
 
-    // adjust our position in the dash array by the dash offset
-    while dash_offset > state.remaining_length {
+    // adjust our position in the dash array by the dash offset; an offset that ends exactly
+    // on a dash boundary starts the path at the beginning of the next dash (so that a closed
+    // subpath starting exactly on an 'on' dash can still be joined to its last dash)
+    while dash_offset >= state.remaining_length {
         dash_offset -= state.remaining_length;
         state.index += 1;
         state.remaining_length = dash_array[state.index % dash_array.len()];
